@@ -301,6 +301,20 @@ func main() {
 						return true
 					}
 					txt := fmt.Sprintf("{ __vhc, __vhv := %s, %s; for __vhs := false; !__vhs; { select { case __vhc <- __vhv: __vhs = true; default: if !__vh.Blocked(%d) { __vhc <- __vhv; __vhs = true } } } }", ch, val, id)
+					constant := false
+					switch v := x.Value.(type) {
+					case *ast.BasicLit:
+						constant = true
+					case *ast.Ident:
+						constant = v.Name == "nil" || v.Name == "true" || v.Name == "false"
+					case *ast.UnaryExpr:
+						_, constant = v.X.(*ast.BasicLit)
+					}
+					if constant {
+						// an untyped constant or nil takes its type from the channel: no temporary
+						// (evaluating it again on a retry has no effect)
+						txt = fmt.Sprintf("{ __vhc := %s; for __vhs := false; !__vhs; { select { case __vhc <- %s: __vhs = true; default: if !__vh.Blocked(%d) { __vhc <- %s; __vhs = true } } } }", ch, val, id, val)
+					}
 					edits = append(edits, edit{off(x.Pos()), off(x.End()), txt})
 					return false
 				}
